@@ -133,6 +133,10 @@ func Files() []File {
 			{Extendee: "Base", F: F{Name: "e2_int32", Num: 150, Kind: "int32", Card: "opt"}},
 			{Extendee: "Base", F: F{Name: "e2_string", Num: 151, Kind: "string", Card: "opt"}}}},
 	}
+	// ... and from the scope of a message nested in a message that declares no extension itself
+	ext.Msgs = append(ext.Msgs, M{Name: "Plain", Fields: []F{{Name: "p", Num: 1, Kind: "int32", Card: "opt"}},
+		Nested: []M{{Name: "Deep", Fields: []F{{Name: "q", Num: 1, Kind: "int32", Card: "opt"}},
+			Exts: []X{{Extendee: "Base", F: F{Name: "e3_int32", Num: 170, Kind: "int32", Card: "opt"}}}}}})
 	ext.Exts = []X{{Extendee: "Base", F: F{Name: "f_int64", Num: 160, Kind: "int64", Card: "opt"}},
 		{Extendee: "Base", F: F{Name: "f_msg", Num: 161, Kind: "message", Card: "opt", Type: "Leaf"}}}
 	files = append(files, ext)
